@@ -198,8 +198,9 @@ def walk(cls, fi, watch, fields, init_env=None, max_paths=64):
         for c in sorted((x for x in ast.walk(expr) if isinstance(x, ast.Call)), key=lambda x: (x.end_lineno or x.lineno, x.end_col_offset or 0)):
             fn = norm_text(c.func)
             if fn in watch:
-                args = {i: pe.word(a, env_) for i, a in enumerate(c.args)}
-                args.update({k.arg: pe.word(k.value, env_) for k in c.keywords if k.arg})
+                # a literal None is "argument not given" (also where a keyword call was put into positional form with the default filled in)
+                args = {i: pe.word(a, env_) for i, a in enumerate(c.args) if not (isinstance(a, ast.Constant) and a.value is None)}
+                args.update({k.arg: pe.word(k.value, env_) for k in c.keywords if k.arg and not (isinstance(k.value, ast.Constant) and k.value.value is None)})
                 snap = {f: pe.word(ast.Attribute(value=ast.Name(id='self', ctx=ast.Load()), attr=f[5:], ctx=ast.Load()), env_) for f in fields}
                 out.append((fn, args, snap, c.lineno))
         return out
